@@ -32,6 +32,9 @@ type Plan struct {
 	// From, when > 0, makes every driver call from that position on fail (a
 	// driver that has gone away), not only the K-th.
 	From int
+	// During, when set, is called once by the failing call before it fails (a
+	// write that goes through the layers above while the lookup is in flight).
+	During func()
 	// Late makes a failing lookup do some work between closing its channel and
 	// returning the error (a driver that releases resources, logs, ...): the
 	// consumer sees the channel closed well before the call returns.
@@ -60,6 +63,9 @@ type Store struct {
 
 // New wraps inner.
 func New(inner storage.Store, plan Plan) *Store { return &Store{inner: inner, plan: plan} }
+
+// SetDuring installs the During callback after the layers above have been built.
+func (s *Store) SetDuring(f func()) { s.mu.Lock(); s.plan.During = f; s.mu.Unlock() }
 
 // Calls returns the calls seen so far.
 func (s *Store) Calls() []Call {
@@ -91,6 +97,12 @@ func (s *Store) enter(method, graph string) bool {
 	s.calls = append(s.calls, c)
 	if s.plan.K > 0 && s.n == s.plan.K {
 		s.fired = &c
+		if d := s.plan.During; d != nil {
+			s.plan.During = nil
+			s.mu.Unlock()
+			d()
+			s.mu.Lock()
+		}
 		return true
 	}
 	if s.plan.From > 0 && s.n >= s.plan.From {
